@@ -35,15 +35,24 @@ UNIT_TRUSTED["daemon_peer_tx"] = [
     "A-C01-2: a queued announcement is cancelled only by the withdrawal of the same prefix (precondition of PendingTx::unreach)",
 ]
 
+UNIT_TRUSTED["table_cmp"] = [
+    "prelude p_table: packet::Attribute opaque with accessor contracts code()/value()/binary()/as_path_length() = uninterpreted spec functions (field reads of the packet crate; as_path_length's definition is checked separately by Kani, bounded); packet::evpn::mac_mobility uninterpreted; Ordering::{reverse,then_with,eq}, <bool as Ord>::cmp, Arc::as_ref; associated constants of packet::Attribute (R10: values checked at compile time)",
+    "Source is kept outside Verus (atomics): src_role / src_router_id / src_stale / src_llgr_stale are uninterpreted reads (R13 accessor shims, Source::is_stale / is_llgr_stale assumed to return the flag: atomics read as plain fields)",
+    "has_llgr_stale_community (chunks / try_into: outside the dialect) assumed to be a function of the attribute list",
+    "A-C02-1 (type invariant of RibEntry / precondition of ecmp_paths): stored paths carry wire-valid attributes (LOCAL_PREF, ORIGIN, ORIGINATOR_ID hold a value) — guaranteed by Attribute::decode for wire input, NOT for gRPC-injected paths (C17, not claimed)",
+    "NOT under contract (note T): that Table::insert / restale* / update_nexthop_validity keep each destination's list sorted by this comparator and exclude filtered / next-hop-invalid entries; hashbrown-heavy mutators are outside both tools",
+]
+
 # minimum number of functions that must produce obligations / of must-fail twins that must run
-FLOORS = {"daemon_fsm": 30, "daemon_gr": 4, "daemon_peer_tx": 7}
-TWIN_FLOORS = {"daemon_fsm": 8, "daemon_gr": 3, "daemon_peer_tx": 2}
+FLOORS = {"daemon_fsm": 30, "daemon_gr": 4, "daemon_peer_tx": 7, "table_cmp": 20}
+TWIN_FLOORS = {"daemon_fsm": 8, "daemon_gr": 3, "daemon_peer_tx": 2, "table_cmp": 4}
 
 PLAN = {
     "C01": {"verus": ["daemon_peer_tx"], "level": "proof"},
     "C07": {"verus": ["daemon_fsm"], "level": "proof"},
     "C08": {"verus": ["daemon_fsm"], "level": "proof"},
     "C10": {"verus": ["daemon_gr"], "level": "proof"},
+    "C02": {"verus": ["table_cmp"], "level": "proof"},
     "C03": {"verus": [], "level": "proof",
             "kani": ["bfd_decode_total_and_exact", "bfd_decode_mustfail", "rtr_frame_length_contract",
                      "rtr_from_bytes_total", "rtr_decode_framing", "bgp_try_parse_framing"]},
